@@ -329,7 +329,18 @@ func main() {
 				if rng.Intn(4) == 0 {
 					ann = nil
 				}
-				bd, man, err := repo.PushSignature(ctx, mt, blob, sub, ann)
+				if ann != nil && rng.Intn(4) == 0 {
+					// the caller states the creation time itself, with a zone offset and fractions: an annotation like any other
+					ann[ocispec.AnnotationCreated] = fmt.Sprintf("2023-03-14T16:10:%02d.250+08:00", op%60)
+					r.Event("pushes-with-a-caller-stated-created-annotation")
+				}
+				pushSub := sub
+				if rng.Intn(3) == 0 {
+					// the subject descriptor as a tag resolution hands it out (annotated): the same artifact
+					pushSub.Annotations = map[string]string{"org.opencontainers.image.ref.name": "v1", "resolved-by": "tag"}
+					r.Event("pushes-for-an-annotated-subject-descriptor")
+				}
+				bd, man, err := repo.PushSignature(ctx, mt, blob, pushSub, ann)
 				trace = append(trace, fmt.Sprintf("PushSignature(%s, %d bytes, subject#%d) -> %v", mt, len(blob), si, err))
 				if err != nil {
 					r.Violation(map[string]string{"kind": "push-failed"}, "PushSignature failed: "+err.Error(), map[string]any{"trace": trace})
@@ -549,7 +560,11 @@ func main() {
 		for oname, ob := range observers {
 			for si, sub := range append(append([]ocispec.Descriptor{}, subjects...), nearMiss...) {
 				var got []ocispec.Descriptor
-				err := ob.ListSignatures(ctx, sub, func(ds []ocispec.Descriptor) error { got = append(got, ds...); return nil })
+				listSub := sub
+				if si%2 == 1 && si < len(subjects) {
+					listSub.Annotations = map[string]string{"org.opencontainers.image.ref.name": "latest"} // (listed with an annotated descriptor of the same artifact)
+				}
+				err := ob.ListSignatures(ctx, listSub, func(ds []ocispec.Descriptor) error { got = append(got, ds...); return nil })
 				r.Eval(fmt.Sprintf("%d|%d|%s", iter, si, oname))
 				wit := map[string]any{"trace": trace, "observer": oname, "subject": si, "on_disk": onDisk}
 				if err != nil {
